@@ -12,6 +12,12 @@ func hookMatches(h *Hook, name string) bool {
 	if h.Pattern == name {
 		return true
 	}
+	if strings.Contains(name, "[") {
+		// instances of generic functions and methods go by the generic's name
+		if n := stripTypeParams(name); n != name && hookMatches(h, n) {
+			return true
+		}
+	}
 	if strings.HasSuffix(name, "."+h.Pattern) || strings.HasSuffix(name, ")."+h.Pattern) {
 		return true
 	}
